@@ -13,6 +13,8 @@ pub assume_specification<'a> [<Expression<'a> as Clone>::clone] (e: &Expression<
 pub assume_specification [<Quantifier as Clone>::clone] (e: &Quantifier) -> (r: Quantifier) ensures r == *e;
 pub assume_specification<T> [<[T]>::rotate_right] (s: &mut [T], k: usize)
     ensures final(s)@.to_multiset() == old(s)@.to_multiset();
+pub assume_specification<T> [<[T]>::reverse] (s: &mut [T])
+    ensures final(s)@ == old(s)@.reverse();
 '''
 def eq_impl(T, G=''):
     return f'''impl{G} PartialEqSpecImpl for {T} {{
@@ -67,6 +69,8 @@ def build(repo, spec_dir, canary=False):
     V('new_repetition', clauses=[Clause('new_repetition.lang', 'lang(r) == (match quantifier { Quantifier::QuestionMark => lang(expr).union(eps()), Quantifier::KleeneStar => star(lang(expr)) })', ['C02', 'C16'])])
     V('is_empty', clauses=[Clause('is_empty.eps', 'r ==> lang(*self) == eps()', ['C02', 'C16'])])
     V('precedence')
+    V('len', requires=['alts_nonempty(*self)', 'wlen(*self) <= usize::MAX'], decreases='self',
+      clauses=[Clause('len.word_length', 'r == wlen(*self)', ['C08'])])
     VS = 'value_spec(*self, match substring { Some(s) => Some(*s), None => None })'
     V('value', clauses=[Clause('value.spec', 'match r { Some(v) => %s == Some(v@), None => %s is None }' % (VS, VS), ['C02', 'C16'])], decreases='self')
     V('concatenate', clauses=[Clause(*c) for c in CONCAT_CLAUSES])
@@ -79,20 +83,84 @@ def build(repo, spec_dir, canary=False):
         }''', ['C01', 'C02', 'C16'])])
     A = lambda name, **kw: b.assumed_fn('expression.rs', name, within=EX, **kw)
     A('repeat_zero_or_more_times', ensures=['match *expr { Some(e) => r is Some && lang(r->Some_0) == star(lang(e)), None => r is None }'], why='Option::map(closure); `star` is uninterpreted (never reached for an acyclic automaton)')
-    A('new_alternation', ensures=NEW_ALTERNATION_ENSURES, why='sort_by_key(closure)')
+    b.emit("""    // sort_by_key(closure) permutes the vector (std); the key (Reverse(len())) only decides the order, which the language does not depend on
+}
+#[verifier::external_body] pub fn vx_sort_by_key_permutes<'a>(v: &mut Vec<Expression<'a>>) ensures final(v)@.to_multiset() == old(v)@.to_multiset() { unimplemented!() }
+impl<'a> Expression<'a> {""")
+    V('flatten_alternations', decreases='current_options',
+      clauses=[Clause('flatten.lang', 'alt_lang(final(flattened_options)@) == alt_lang(old(flattened_options)@).union(alt_lang(current_options@))', ['C01', 'C02', 'C08', 'C16'])],
+      loops={1: ['it1.seq() == vstd::std_specs::vec::into_iter_elts(it1.snapshot@)', 'vstd::std_specs::vec::into_iter_elts(it1.snapshot@) == current_options@', '0 <= it1.index@ <= current_options@.len()',
+                 ('flatten.lang@loop1', ['C01', 'C02', 'C08', 'C16'], 'alt_lang(flattened_options@) == alt_lang(old(flattened_options)@).union(alt_lang(current_options@.take(it1.index@)))')]},
+      blocks=[(1, 'loop_before', '        proof { lemma_alt_lang_empty(); assert(current_options@.take(0) =~= Seq::<Expression>::empty()); }'),
+              (1, 'loop_start', '            let ghost f0 = flattened_options@; proof { assert(option == current_options@[it1.index@]); lemma_alt_take_step(current_options@, it1.index@); }'),
+              (1, 'loop_end', '            proof { if !(current_options@[it1.index@] is Alternation) { lemma_alt_lang_push(f0, current_options@[it1.index@]); } }', ('flatten.lang@loop1', ['C01', 'C02', 'C08', 'C16'])),
+              (1, 'loop_after', '        proof { assert(current_options@.take(current_options@.len() as int) =~= current_options@); }')])
+    V('new_alternation', clauses=[Clause('new_alternation.lang', NEW_ALTERNATION_ENSURES[0], ['C01', 'C02', 'C08', 'C16'])],
+      extra_rules=[('R19', r'options\.sort_by_key\(\|option\| Reverse\(option\.len\(\)\)\);', 'vx_sort_by_key_permutes(&mut options);', 'sort_by_key(closure): a permutation; the key only decides the order')],
+      blocks=[('vx_sort_by_key_permutes(&mut options);', 'before', '        let ghost options_before_sort = options@;'),
+              (None, 'before_tail', '        proof { lemma_alt_lang_empty(); lemma_alt_lang_perm(options_before_sort, options@); }')])
     A('new_character_class', ensures=['lang(r) == class_lang(first_char_set@.union(second_char_set@))'], why='iterator chain')
     A('is_single_codepoint', ensures=['r ==> lang(*self) == class_lang(charset_spec(*self))'], why='string iteration; meaning of a one-char grapheme')
     A('extract_character_set', ensures=['r@ == charset_spec(expr)'], why='string iteration')
-    A('remove_substring', requires=['match value_spec(*old(self), Some(*substring)) { Some(v) => length <= v.len(), None => true }'],
-      ensures=['stripped(*old(self), *final(self), *substring, length as int)'], why='Vec::drain')
-    A('find_common_substring', ensures=['''match r {
-            Some(c) => c@.len() > 0 && value_spec(*a, Some(*substring)) is Some && value_spec(*b, Some(*substring)) is Some
-                && (*substring is Prefix ==> is_prefix(c@, value_spec(*a, Some(*substring))->Some_0) && is_prefix(c@, value_spec(*b, Some(*substring))->Some_0))
-                && (*substring is Suffix ==> is_suffix(c@, value_spec(*a, Some(*substring))->Some_0) && is_suffix(c@, value_spec(*b, Some(*substring))->Some_0)),
-            None => true }'''], why='zip_longest loop')
+    b.emit("""    // Vec::drain(range) dropped at once = removal of that range (std); specified exactly
+}
+#[verifier::external_body] pub fn vx_drain_prefix(v: &mut Vec<Grapheme>, n: usize) requires n <= old(v)@.len() ensures final(v)@ == old(v)@.subrange(n as int, old(v)@.len() as int) { unimplemented!() }
+#[verifier::external_body] pub fn vx_drain_suffix(v: &mut Vec<Grapheme>, n: usize) requires n <= old(v)@.len() ensures final(v)@ == old(v)@.subrange(0, old(v)@.len() - n) { unimplemented!() }
+impl<'a> GraphemeCluster<'a> {""")
+    b.verified_fn('cluster.rs', 'graphemes_mut', within=GC, props=['C07'], fname='GraphemeCluster::graphemes_mut',
+                  clauses=[Clause('cluster.graphemes_mut', '*r == old(self).graphemes && final(self).graphemes == *final(r) && final(self).config == old(self).config', ['C02', 'C16'])])
+    b.emit("}\nimpl<'a> Expression<'a> {")
+    V('remove_substring', requires=['match value_spec(*old(self), Some(*substring)) { Some(v) => length <= v.len(), None => true }'],
+      clauses=[Clause('remove_substring.stripped', 'stripped(*old(self), *final(self), *substring, length as int)', ['C01', 'C02', 'C16'])], decreases='*old(self)',
+      extra_rules=[('R19', r'cluster\.graphemes_mut\(\)\.drain\(\.\.length\);', 'vx_drain_prefix(cluster.graphemes_mut(), length);', 'Vec::drain(..n) dropped at once'),
+                   ('R19', r'graphemes\.drain\(graphemes\.len\(\) - length\.\.\);', 'vx_drain_suffix(graphemes, length);', 'Vec::drain(len - n..) dropped at once')])
+    b.emit("""    // itertools zip_longest over two slices: pairs while both last, then the rest of the longer one (specified exactly)
+}
+pub enum EitherOrBoth<A, B> { Both(A, B), Left(A), Right(B) }
+use EitherOrBoth::Both;
+#[verifier::external_body] pub fn vx_zip_longest<'x>(a: &'x Vec<Grapheme>, b: &'x Vec<Grapheme>) -> (r: Vec<EitherOrBoth<&'x Grapheme, &'x Grapheme>>)
+    ensures r@.len() == (if a@.len() >= b@.len() { a@.len() } else { b@.len() }),
+            forall|i: int| 0 <= i < r@.len() ==> ((#[trigger] r@[i]) is Both <==> (i < a@.len() && i < b@.len())),
+            forall|i: int| 0 <= i < a@.len() && i < b@.len() ==> *(#[trigger] r@[i])->Both_0 == a@[i] && *r@[i]->Both_1 == b@[i],
+{ unimplemented!() }
+#[verifier::external_body] pub fn vx_unwrap_or_default(o: Option<Vec<Grapheme>>) -> (r: Vec<Grapheme>) ensures r@ == (match o { Some(v) => v@, None => Seq::<Grapheme>::empty() }) { unimplemented!() }
+impl<'a> Expression<'a> {""")
+    FC = 'match r { Some(c) => c@.len() > 0 && value_spec(*a, Some(*substring)) is Some && value_spec(*b, Some(*substring)) is Some && (*substring is Prefix ==> is_prefix(c@, value_spec(*a, Some(*substring))->Some_0) && is_prefix(c@, value_spec(*b, Some(*substring))->Some_0)) && (*substring is Suffix ==> is_suffix(c@, value_spec(*a, Some(*substring))->Some_0) && is_suffix(c@, value_spec(*b, Some(*substring))->Some_0)), None => true }'
+    V('find_common_substring', clauses=[Clause('find_common_substring.common', FC, ['C01', 'C02', 'C16'])],
+      extra_rules=[('R19', r'\b(a|b)\.value\(Some\(substring\)\)\.unwrap_or_default\(\)', r'vx_unwrap_or_default(\1.value(Some(substring)))', 'Option<Vec<_>>::unwrap_or_default'),
+                   ('R19', r'graphemes_a\.iter\(\)\.zip_longest\(graphemes_b\.iter\(\)\)', 'vx_zip_longest(&graphemes_a, &graphemes_b)', 'itertools zip_longest over two slices')],
+      loops={1: [(x.replace('ELS', 'vstd::std_specs::vec::into_iter_elts(it1.snapshot@)') if isinstance(x, str) else x) for x in [
+                 'it1.seq() == ELS', '0 <= it1.index@ <= ELS.len()', ('find_common_substring.scans_in_step@loop1', ['C01', 'C02', 'C16'], '!break common_graphemes@.len() == it1.index@'),
+                 'ELS.len() == (if graphemes_a@.len() >= graphemes_b@.len() { graphemes_a@.len() } else { graphemes_b@.len() })',
+                 'forall|i: int| 0 <= i < ELS.len() ==> ((#[trigger] ELS[i]) is Both <==> (i < graphemes_a@.len() && i < graphemes_b@.len()))',
+                 'forall|i: int| 0 <= i < graphemes_a@.len() && i < graphemes_b@.len() ==> *(#[trigger] ELS[i])->Both_0 == graphemes_a@[i] && *ELS[i]->Both_1 == graphemes_b@[i]']] +
+                [('find_common_substring.common@loop1', ['C01', 'C02', 'C16'], 'common_graphemes@.len() <= it1.index@ && common_graphemes@.len() <= graphemes_a@.len() && common_graphemes@.len() <= graphemes_b@.len() && common_graphemes@ == graphemes_a@.take(common_graphemes@.len() as int) && common_graphemes@ == graphemes_b@.take(common_graphemes@.len() as int)')]},
+      blocks=[(1, 'loop_start', '            let ghost c0 = common_graphemes@; proof { assert(pair == it1.seq()[it1.index@]); }'),
+              (1, 'loop_end', '''            proof {
+                let k = it1.index@;
+                assert(graphemes_a@.take(k + 1) =~= graphemes_a@.take(k).push(graphemes_a@[k]));
+                assert(graphemes_b@.take(k + 1) =~= graphemes_b@.take(k).push(graphemes_b@[k]));
+            }''', ('find_common_substring.common@loop1', ['C01', 'C02', 'C16'])),
+              (1, 'loop_after', '        let ghost pre = common_graphemes@; let ghost ga = graphemes_a@; let ghost gb = graphemes_b@;'),
+              (None, 'before_tail', """        proof {
+            let va = value_spec(*a, Some(*substring)); let vb = value_spec(*b, Some(*substring));
+            if pre.len() > 0 {
+                let n = pre.len() as int;
+                assert(va is Some && vb is Some);
+                if *substring is Suffix {
+                    lemma_rev_take(va->Some_0, n); lemma_rev_take(vb->Some_0, n);
+                    assert(common_graphemes@ =~= va->Some_0.subrange(va->Some_0.len() - n, va->Some_0.len() as int));
+                    assert(common_graphemes@ =~= vb->Some_0.subrange(vb->Some_0.len() - n, vb->Some_0.len() as int));
+                } else {
+                    assert(va->Some_0.subrange(0, n) =~= pre); assert(vb->Some_0.subrange(0, n) =~= pre);
+                }
+            }
+        }""", ('find_common_substring.common', ['C01', 'C02', 'C16']))])
     b.emit('}')
     # rotation of alternatives (regexp.rs) -- C01c, C08b
-    b.emit('pub struct Regex { pub x: u8 }\npub struct RegExp { pub x: u8 }\nimpl RegExp {')
+    b.emit('pub struct Regex { pub x: u8 }')
+    b.type_item('regexp.rs', r"^pub struct RegExp<'a> \{")
+    b.emit("impl<'a> RegExp<'a> {")
     b.assumed_fn('regexp.rs', 'regex_matches_all_test_cases', within="^impl<'a> RegExp<'a> \\{", ensures=[], why='regex engine call; only used as a loop guard')
     b.verified_fn('regexp.rs', 'is_each_test_case_matched_after_rotating_alternations', within="^impl<'a> RegExp<'a> \\{", props=['C07'], fname='RegExp::rotate',
                   clauses=[Clause('rotate.lang_preserved', 'lang(*final(expr)) == lang(*old(expr))', ['C01', 'C08', 'C16'])],
